@@ -63,5 +63,46 @@ theorem measure_row {κ} [DecidableEq κ] (proj : κ → κ) (outputs : List (κ
 theorem no_fill_leaves_absent (metrics : List Metric) (row : List (Option Q)) :
     fillRow .repaired false metrics row = row := rfl
 
+/-- the decomposed per-list value reported in the table is the metric's own `measure_list` value -/
+theorem table_value_is_measure_list (sq : Bool) (pairs : List Pair) :
+    extract (listData .repaired sq pairs) = measureList sq pairs := rfl
+
+/-- a pair with a missing side contributes neither to the error sum nor to the count -/
+theorem ignored_pair_no_effect (sq : Bool) (pairs : List Pair) (p : Pair) (h : p.1 = none ∨ p.2 = none) :
+    listData .repaired sq (p :: pairs) = listData .repaired sq pairs := by
+  obtain ⟨a, b⟩ := p
+  have hb : both ((a, b) :: pairs) = both pairs := by
+    rcases h with h | h <;> simp only at h <;> subst h
+    · simp [both, List.filterMap_cons]
+    · cases a <;> simp [both, List.filterMap_cons]
+  simp only [listData, hb]
+
+/-- dispositions: with both set to `ignore` nothing is rejected … -/
+theorem align_ignore (pairs : List Pair) : align .ignore .ignore pairs = .ok pairs := by
+  simp [align]
+
+/-- … `missing_scores = error` rejects a list with a rated but unscored item … -/
+theorem align_error_scores (mt : Disp) (pairs : List Pair) (t : Q) (h : (none, some t) ∈ pairs) :
+    align .error mt pairs = .error .missingScores := by
+  have : pairs.any (fun pt => pt.1.isNone && pt.2.isSome) = true :=
+    List.any_eq_true.mpr ⟨(none, some t), h, by simp⟩
+  simp [align, this]
+
+/-- … and `missing_truth = error` rejects a list with a scored but unrated item (when scores are complete or ignored) -/
+theorem align_error_truth (pairs : List Pair) (p : Q) (h : (some p, none) ∈ pairs) :
+    align .ignore .error pairs = .error .missingTruth := by
+  have : pairs.any (fun pt => pt.1.isSome && pt.2.isNone) = true :=
+    List.any_eq_true.mpr ⟨(some p, none), h, by simp⟩
+  simp [align, this]
+
+/-- an accepted list is passed on unchanged -/
+theorem align_ok_same (ms mt : Disp) (pairs out : List Pair) (h : align ms mt pairs = .ok out) : out = pairs := by
+  unfold align at h
+  split at h
+  · cases h
+  · split at h
+    · cases h
+    · injection h with h; exact h.symm
+
 #print axioms global_is_pooled
 end LK.Pred
